@@ -480,6 +480,11 @@ fn cure_grid() -> Vec<(&'static str, &'static str, String, String)> {
             "FUNCTION_BLOCK cg_fb\nVAR_EXTERNAL\ncg_lim : INT;\nEND_VAR\nEND_FUNCTION_BLOCK\nPROGRAM cg_prog\nVAR\ncg_i : cg_fb;\nEND_VAR\nEND_PROGRAM\nCONFIGURATION cg_conf\nVAR_GLOBAL CONSTANT\ncg_lim : INT := 5;\nEND_VAR\nRESOURCE cg_res ON cg_cpu\nPROGRAM cg_inst : cg_prog;\nEND_RESOURCE\nEND_CONFIGURATION\n".to_string(),
             "PROGRAM cg_prog2\nVAR\ncg_y : INT;\nEND_VAR\ncg_y := 1;\nEND_PROGRAM\nCONFIGURATION cg_conf2\nRESOURCE cg_res2 ON cg_cpu\nVAR_GLOBAL\ncg_lim : INT := 1;\nEND_VAR\nPROGRAM cg_inst2 : cg_prog2;\nEND_RESOURCE\nEND_CONFIGURATION\n".to_string(),
         ),
+        // a standard function block that is "valid but not implemented" (P0029) is not made
+        // implemented by a TYPE that happens to carry its name
+        ("standard function block type; a companion declares a structure of that name", "P0029", "FUNCTION_BLOCK cg_user\nVAR\ncg_t : TON;\nEND_VAR\nEND_FUNCTION_BLOCK\n".to_string(), "TYPE\nTON : STRUCT\ncg_m : INT;\nEND_STRUCT;\nEND_TYPE\n".to_string()),
+        ("standard function block type; a companion declares an enumeration of that name in another case", "P0029", "PROGRAM cg_user\nVAR\ncg_c : CTU;\nEND_VAR\nEND_PROGRAM\n".to_string(), "TYPE\nctu : (cg_a, cg_b);\nEND_TYPE\n".to_string()),
+        ("standard function block type; a companion declares a string type of that name", "P0029", "FUNCTION_BLOCK cg_user\nVAR\ncg_r : R_TRIG;\nEND_VAR\nEND_FUNCTION_BLOCK\n".to_string(), "TYPE\nR_Trig : STRING[8];\nEND_TYPE\n".to_string()),
         ("unknown type that is a function block elsewhere", "P0022", "FUNCTION_BLOCK cg_user\nVAR\ncg_v : cg_missing;\nEND_VAR\nEND_FUNCTION_BLOCK\n".to_string(), "FUNCTION_BLOCK cg_owner\nVAR\ncg_missing : INT;\nEND_VAR\nEND_FUNCTION_BLOCK\n".to_string()),
     ]
 }
